@@ -35,7 +35,7 @@ def trash_locations(L, include_insecure=True):
         as_ = L['trash'][v]['alt']
         if ts == 'sticky':
             out.append((v + '/.Trash/%d' % uid, v, True))
-        elif include_insecure and ts in ('nonsticky', 'link_sticky', 'link_nonsticky'):
+        elif include_insecure and ts in ('nonsticky', 'nonsticky_sgid', 'nonsticky_suid', 'link_sticky', 'link_nonsticky'):
             out.append((v + '/.Trash/%d' % uid, v, False))
         if as_ == 'dir':
             out.append((v + '/.Trash-%d' % uid, v, True))
